@@ -119,6 +119,8 @@ def build(spec, pool_objs):
     prog = _progression([r[0] for r in spec["index"]]) if len(names) == 1 and spec.get("as_range") else None
     if prog:
         idx = pd.RangeIndex(prog[0], prog[1], prog[2], name=names[0])      # what a default-indexed, reversed or thinned frame carries
+    elif len(names) == 1 and spec.get("one_level_multiindex"):
+        idx = pd.MultiIndex.from_arrays([[r[0] for r in rows]], names=names)      # what is left of a wider index
     elif len(names) == 1:
         idx = pd.Index([r[0] for r in rows], name=names[0])
     else:
@@ -287,7 +289,9 @@ def generate(prop, rng, tier):
         rows = full_rows_for(names, key_sets)
         if rng.random() < 0.6:
             rng.shuffle(rows)
-        if len(names) == 1 and rng.random() < 0.5:
+        if len(names) == 1 and rng.random() < 0.12 and names[0] not in ("iv", "x"):
+            spec["one_level_multiindex"] = True
+        elif len(names) == 1 and rng.random() < 0.5:
             spec["as_range"] = True
             if names[0] == "r" and rng.random() < 0.8:
                 rows = sorted(rows, reverse=rng.random() < 0.5)
@@ -715,7 +719,7 @@ def _run(trace, out, log):
             # documented mapping mode: object keys become columns
             okk = prm_r is prm_o or snap_equal(snapshot(prm_r), b)
             okk = okk and isinstance(obj_r, pd.DataFrame) and obj_r.index.equals(prm_o.index) and \
-                [_py(c) for c in obj_r.columns] == [r[0] for r in a["rows"]]
+                [_py(c[0] if isinstance(c, tuple) and len(c) == 1 else c) for c in obj_r.columns] == [r[0] for r in a["rows"]]
             if okk:
                 want = [v[0] for v in a["values"]]
                 for r in range(len(obj_r)):
